@@ -73,7 +73,8 @@ class Runner:
         return any((v["class"], v["sig"]) == key for v in rec.get("violations", []))
 
     # ---- minimiser
-    def minimise(self, case, key, max_execs=300, max_s=120.0):
+    def minimise(self, case, key, max_execs=300, max_s=None):
+        max_s = max_s or getattr(self.mod, 'SHRINK_MAX_S', 120.0)
         shrink = getattr(self.mod, "shrink", None)
         if shrink is None:
             return case, {"execs": 0}
